@@ -609,8 +609,8 @@ func ruleC07Keeps(p *Program, r *Run) {
 				return true
 			}
 			callee := Callee(info, call)
-			isProd := callee != nil && cursorOf(callee) == "parser" && callee.Name() != "next" && callee.Name() != "split" && callee.Name() != "splitSemi"
-			isFirst := callee != nil && (callee.Name() == "firstParse" || (callee.Origin() != nil && callee.Origin().Name() == "firstParse"))
+			isProd := callee != nil && cursorOf(callee) == "parser" && fnName(callee) != "next" && fnName(callee) != "split" && fnName(callee) != "splitSemi"
+			isFirst := callee != nil && (fnName(callee) == "firstParse" || (callee.Origin() != nil && fnName(callee.Origin()) == "firstParse"))
 			if !isProd && !isFirst {
 				return true
 			}
@@ -803,7 +803,7 @@ func (c *synClient) production(fn *types.Func) bool {
 // Inline: everything small on the way from the keyword to the append, except the productions themselves.
 func (c *synClient) Inline(e *Engine, call *ast.CallExpr, callee *types.Func, decl *ast.FuncDecl) bool {
 	return !c.production(callee) && smallBody(decl) && callee.Pkg() != nil && callee.Pkg().Path() == PathParser &&
-		callee.Name() != "joinErrors" && callee.Name() != "next" && callee.Name() != "prev" && callee.Name() != "split" && callee.Name() != "endSplit"
+		fnName(callee) != "joinErrors" && fnName(callee) != "next" && fnName(callee) != "prev" && fnName(callee) != "split" && fnName(callee) != "endSplit"
 }
 
 func (c *synClient) PostCall(e *Engine, st *State, call *ast.CallExpr, callee *types.Func) *State {
